@@ -327,6 +327,11 @@ pub struct GenCx<'a, 'b> {
     pub signed_profile: bool,
     /// optional members are present more often
     pub dense: bool,
+    /// (elements, padding): the first list of an XML document gets that many elements and every XML text that many
+    /// more characters - documents at the upper end of what the API allows (1000 keys of ~1 KiB, 10000 parts)
+    pub big: Option<(usize, usize)>,
+    big_used: bool,
+    big_seq: u32,
 }
 
 #[derive(Debug, Clone, PartialEq)]
@@ -342,6 +347,9 @@ impl<'a, 'b> GenCx<'a, 'b> {
             purpose,
             stack: Vec::new(),
             depth: 0,
+            big: None,
+            big_used: false,
+            big_seq: 0,
             blobs: Vec::new(),
             events: Vec::new(),
             max_blob: 4096,
@@ -477,7 +485,14 @@ impl<'a, 'b> GenCx<'a, 'b> {
             _ => {}
         }
         let max = 24;
-        let s = if cx.non_empty { self.t.string1(cx.alpha, max) } else { self.t.string(cx.alpha, max) };
+        let mut s = if cx.non_empty { self.t.string1(cx.alpha, max) } else { self.t.string(cx.alpha, max) };
+        if let (Some((_, pad)), Alpha::Xml) = (self.big, cx.alpha) {
+            // ASCII padding behind the generated text (no edge white space is added)
+            self.big_seq += 1;
+            let tag = format!("-{:07}-", self.big_seq);
+            s.push_str(&tag);
+            s.extend(std::iter::repeat_n('p', pad.saturating_sub(tag.len())));
+        }
         if cx.non_empty && s.is_empty() { "x".to_owned() } else { s }
     }
 }
@@ -604,6 +619,10 @@ impl<T: Gen> Gen for Vec<T> {
             return (0..min).map(|_| T::generate(g)).collect();
         }
         let cx = g.cur();
+        if let (Some((n, _)), false, Alpha::Xml) = (g.big, g.big_used, cx.alpha) {
+            g.big_used = true;
+            return (0..n).map(|_| T::generate(g)).collect();
+        }
         let max = if g.signed_profile && cx.alpha == Alpha::Header && g.depth <= 1 {
             1
         } else if g.depth <= 2 {
